@@ -164,7 +164,8 @@ def tlc_gen(module, cfg, name, workers=1, timeout=900, simulate=None, seed=None,
         if seed is not None:
             extra += ["-seed", str(seed)]
         workers = 1
-    rc, out, secs = run_tlc(module, cfg, workers=workers, timeout=timeout, extra=extra, out_path=raw)
+    # simulation keeps no state set: a bounded heap avoids the JVM growing to a quarter of the machine (62 GB, no swap)
+    rc, out, secs = run_tlc(module, cfg, workers=workers, timeout=timeout, extra=extra, out_path=raw, java_extra="-Xmx6g" if simulate else "")
     tail = subprocess.run(["tail", "-c", "6000", raw], stdout=subprocess.PIPE, text=True).stdout
     if simulate:
         ok = rc in (0, 124) or "Finished in" in tail or "simulation" in tail.lower()
